@@ -235,7 +235,8 @@ impl Bat {
     }
 }
 
-const BATCHES: [Bat; 8] = [Bat::F(1), Bat::F(2), Bat::F(9), Bat::F(10), Bat::F(11), Bat::Nm1, Bat::N, Bat::Np1];
+// "every batch size": callers pass usize::MAX (or another huge value) to mean "everything in one batch"
+const BATCHES: [Bat; 10] = [Bat::F(1), Bat::F(2), Bat::F(9), Bat::F(10), Bat::F(11), Bat::Nm1, Bat::N, Bat::Np1, Bat::F(1 << 40), Bat::F(usize::MAX)];
 const THREADS: [usize; 6] = [1, 2, 3, 7, 16, 32];
 
 #[derive(Clone, Debug)]
@@ -1433,6 +1434,134 @@ fn main() {
             if other_calls.load(Ordering::Relaxed) == 0 {
                 c.inconclusive("the second thread never completed a call: no concurrency observed");
             }
+        });
+    }
+    // K. a long-lived ParallelArchive across a transient fault: calls that fail because the archive cannot be opened for a
+    // moment (file moved away and back; no file descriptor available) are followed by the same call under normal conditions,
+    // which must answer exactly like a sequential reader does at that moment — a failure is not remembered.
+    let fault_base = conc_base + conc_specs.len() as u64;
+    let fault_specs: [(&str, usize, &str); 8] = [("extract_files_parallel", 0, "moved-away"), ("extract_files_parallel", 4, "no-descriptors"), ("extract_files_batched", 0, "moved-away"),
+        ("extract_files_batched", 3, "no-descriptors"), ("process_files_parallel", 0, "moved-away"), ("process_files_parallel", 2, "no-descriptors"), ("extract_matching_parallel", 0, "moved-away"),
+        ("extract_matching_parallel", 0, "no-descriptors")];
+    for (fi, &(api, threads, fault)) in fault_specs.iter().enumerate() {
+        let idx = fault_base + fi as u64;
+        if !run.want(idx) || (run.args.only.is_none() && mix(idx) % stride != 0) {
+            continue;
+        }
+        let class = format!("{api}|transient-fault-on-long-lived-object|t{threads}|fault={fault}");
+        let desc = json!({"interface": api, "threads": threads, "fault": fault, "what": "valid call, the same call while the archive cannot be opened, the same call after the fault has gone: first and last compared slot by slot with the sequential baseline"});
+        let fx = &mut fixes[0];
+        let names: Vec<String> = fx.names.iter().filter(|n| !fx.base.get(*n).map(|e| e.is_err()).unwrap_or(false)).cloned().collect();
+        let want: Vec<(String, Exp)> = names.iter().map(|n| (n.clone(), fx.expect(n))).collect();
+        // a private copy of the fixture: the fault must not disturb the other cases of this worker
+        let path = dir.join(format!("c09-fault-{idx}.mpq"));
+        let src = fx.path.clone();
+        run.case(idx, &class, desc, |c| {
+            if std::fs::copy(&src, &path).is_err() || want.iter().any(|(_, e)| e.is_err()) {
+                c.inconclusive("fixture copy failed or fixture has unreadable names");
+                return;
+            }
+            let pa = match ParallelArchive::open(&path) {
+                Ok(p) => p,
+                Err(e) => {
+                    c.inconclusive(format!("ParallelArchive::open failed on a fixture: {e}"));
+                    return;
+                }
+            };
+            let pool = if threads > 0 { rayon::ThreadPoolBuilder::new().num_threads(threads).build().ok() } else { None };
+            let refs: Vec<&str> = names.iter().map(|s| s.as_str()).collect();
+            let call = |req: &[&str]| -> Result<Vec<(String, Vec<u8>)>, Error> {
+                in_pool(pool.as_ref(), || match api {
+                    "extract_files_parallel" => pa.extract_files_parallel(req),
+                    "extract_files_batched" => pa.extract_files_batched(req, 7),
+                    "extract_matching_parallel" => pa.extract_matching_parallel(|n| req.iter().any(|r| r.eq_ignore_ascii_case(n))),
+                    _ => pa.process_files_parallel(req, |name, data| Ok((name.to_string(), data))),
+                })
+            };
+            let judge = |c: &mut Case, phase: &str, got: Result<Result<Vec<(String, Vec<u8>)>, Error>, vh_common::PanicInfo>| -> bool {
+                c.count(&format!("fault_calls|{phase}"), 1);
+                let v = match got {
+                    Err(p) => {
+                        c.violate(format!("panic|{api}|transient-fault|{}", p.sig()), format!("{api} panicked ({phase}): {}", p.msg), json!({"phase": phase}));
+                        return false;
+                    }
+                    Ok(Err(e)) => {
+                        c.violate(format!("after-transient-fault|{api}|fault={fault}|call-fails|{}", variant(&e)), format!("{phase}: a valid {api} call failed ({e}) although a sequential reader reads every requested name"), json!({"phase": phase, "threads": threads}));
+                        return false;
+                    }
+                    Ok(Ok(v)) => v,
+                };
+                let bad = if v.len() != want.len() {
+                    Some(format!("{} results for {} requested names", v.len(), want.len()))
+                } else if api == "extract_matching_parallel" {
+                    let m: HashMap<&str, &Vec<u8>> = v.iter().map(|(n, d)| (n.as_str(), d)).collect();
+                    want.iter().find_map(|(n, e)| match (m.get(n.as_str()), e) {
+                        (Some(d), Exp::Ok(w)) if ***d == **w => None,
+                        _ => Some(format!("{n} missing or different")),
+                    })
+                } else {
+                    v.iter().zip(&want).enumerate().find_map(|(k, ((gn, gd), (wn, we)))| match we {
+                        Exp::Ok(w) if gn == wn && *gd == **w => None,
+                        _ => Some(format!("slot {k} ({wn}) is not what a sequential read returns")),
+                    })
+                };
+                c.count("fault_slots_compared", want.len() as u64);
+                if let Some(why) = bad {
+                    c.violate(format!("after-transient-fault|{api}|fault={fault}|{}", if v.len() != want.len() { "slot-count" } else { "slot-content" }), format!("{phase}: {api}: {why}"), json!({"phase": phase, "threads": threads}));
+                    return false;
+                }
+                true
+            };
+            if !judge(c, "before the fault", trap(|| call(&refs))) {
+                return;
+            }
+            for round in 0..3 {
+                // ---- the fault
+                let away = path.with_extension("away");
+                let mut old_lim = libc::rlimit { rlim_cur: 0, rlim_max: 0 };
+                if fault == "moved-away" {
+                    if std::fs::rename(&path, &away).is_err() {
+                        c.inconclusive("could not move the archive away");
+                        return;
+                    }
+                } else {
+                    unsafe {
+                        libc::getrlimit(libc::RLIMIT_NOFILE, &mut old_lim);
+                        let lim = libc::rlimit { rlim_cur: 0, rlim_max: old_lim.rlim_max };
+                        libc::setrlimit(libc::RLIMIT_NOFILE, &lim);
+                    }
+                }
+                let during = trap(|| call(&refs));
+                // ---- the fault goes away
+                if fault == "moved-away" {
+                    let _ = std::fs::rename(&away, &path);
+                } else {
+                    unsafe { libc::setrlimit(libc::RLIMIT_NOFILE, &old_lim) };
+                }
+                match during {
+                    Err(p) => {
+                        c.violate(format!("panic|{api}|transient-fault|{}", p.sig()), format!("{api} panicked while the archive could not be opened: {}", p.msg), json!({"round": round}));
+                        return;
+                    }
+                    Ok(Err(_)) => c.count("fault_calls_failed_as_a_whole", 1),
+                    Ok(Ok(v)) => {
+                        // answered from what is already open: every slot that is there must still be right
+                        c.count("fault_calls_answered", 1);
+                        for (gn, gd) in &v {
+                            if let Some((_, Exp::Ok(w))) = want.iter().find(|(n, _)| n == gn) {
+                                if *gd != **w {
+                                    c.violate(format!("after-transient-fault|{api}|fault={fault}|slot-content-during-fault"), format!("{api} returned wrong bytes for {gn} while the archive could not be opened"), json!({"round": round}));
+                                    return;
+                                }
+                            }
+                        }
+                    }
+                }
+                if !judge(c, "after the fault", trap(|| call(&refs))) {
+                    return;
+                }
+            }
+            let _ = std::fs::remove_file(&path);
         });
     }
     stop.store(true, Ordering::Relaxed);
